@@ -632,3 +632,9 @@ P("C13", BASE, "            view[\"radius\"] = within_branch_radiuses[0] * np.on
 B("C13", BASE, "            view[\"radius\"] = within_branch_radiuses[0] * np.ones(ncomp)", "            view[\"radius\"] = within_branch_radiuses[0] * np.ones(num_previous_ncomp)", "R-C13-length")
 P("C20", "jaxley/connect.py", "    post_rows = post_cell_view.base.nodes.loc[global_post_indices]", "    post_rows = pre_cell_view.base.nodes.loc[global_post_indices]")
 B("C20", "jaxley/connect.py", "    pre_rows = pre_cell_view.base.nodes.loc[global_pre_indices]", "    pre_rows = pre_cell_view.base.nodes.loc[global_post_indices]", "R-C20-rolenames")
+# a group of attribute assignments moved into a setter method of the same class is the same program
+_OLD_DT = "        if isinstance(self, View):\n            trainables_and_inds = self._filter_trainables(is_viewed=False)\n            self.base.indices_set_by_trainables = trainables_and_inds[0]\n            self.base.trainable_params = trainables_and_inds[1]\n            self.base.num_trainable_params -= self.num_trainable_params\n        else:\n            self.base.indices_set_by_trainables = []\n            self.base.trainable_params = []\n            self.base.num_trainable_params = 0\n        self._update_view()\n\n    def add_to_group("
+_NEW_DT = "        if isinstance(self, View):\n            indices, params = self._filter_trainables(is_viewed=False)\n            num_params = self.base.num_trainable_params - self.num_trainable_params\n            self._overwrite_trainables(indices, params, num_params)\n        else:\n            self._overwrite_trainables([], [], 0)\n        self._update_view()\n\n    def _overwrite_trainables(self, indices, params, num_params):\n        self.base.indices_set_by_trainables = indices\n        self.base.trainable_params = params\n        self.base.num_trainable_params = num_params\n\n    def add_to_group("
+for _p in ("C10", "C19", "C18"):
+    P(_p, BASE, _OLD_DT, _NEW_DT)
+B("C19", BASE, _OLD_DT, _NEW_DT.replace("self._overwrite_trainables(indices, params, num_params)", "self._overwrite_trainables(params, indices, num_params)"), "R-C19-argnames")
